@@ -245,6 +245,18 @@ def _s21(s):
             lab(L), call('fill', 2), call('fill2', 3), call('fill', 0), op(None, I(L))]
 
 
+@skeleton('logic-operators-on-late-labels', 3, lambda s: True)
+def _s22(s):
+    P, L, It = s
+    # && || ?: whose one operand is known at substitution time (an integer argument / the iterator) while the other is a label that is
+    # resolved last: the value is the operator's 0/1 (or the selected branch), never the operand itself
+    return [mdef('m', [P, 'en'], body=[op(None, ('&&', I('en'), I(P))), op(('||', ('-', I('en'), 1), I(P)), None),
+                                       op(('?:', I('en'), I(P), 7), ('&&', I(P), I('en')))]),
+            mdef('r', [P], body=[rep(2, It, 'leafl', ('||', I(It), I(P)))]),
+            mdef('leafl', ['x'], body=[op(None, I('x'))]),
+            op(None, None), op(None, None), lab(L), call('m', I(L), 1), call('m', I(L), 0), call('m', ('+', I(L), DW), 5), call('r', I(L)), op(None, I(L))]
+
+
 # skeletons whose programs raise no assembler warning for ANY assignment of the names (on the unchanged tree): they must also assemble
 # with warnings treated as errors, which is the default of the fj command and of the API
 WARNING_FREE = {'arity-overloading', 'dollar', 'globals-and-externs', 'guarded-recursion', 'iterator-like-own-parameter-used-later',
